@@ -17,7 +17,11 @@ def gen_requests(ctx):
         prob, kind = sl.gen_problem(rng, rng.choice(["qp", "nonconvex"]), m=rng.choice([0, 1, 2, 3, 4]), hess=(solver == "pantr" and rng.random() < 0.5))
         budget = rng.choice([0, 0, 1, 1, 2, 3, 7, 40])
         params = ["solver.max_iter=%d" % budget, "xcrit=%s" % rng.choice(sl.CRITS)]
-        scenario = rng.choice(["plain"] * 4 + ["nan", "noprogress", "maxtime", "stop", "stopcb", "L0", "Lnan"])
+        scenario = rng.choice(["plain"] * 4 + ["nan", "noprogress", "maxtime", "stop", "stopcb", "stopdir", "L0", "Lnan"])
+        if scenario == "stopdir":
+            solver, direction = rng.choice([("panoc", "scripted"), ("zerofpr", "scripted")])
+            budget = rng.choice([3, 7, 40])
+            params = ["solver.max_iter=%d" % budget, "xcrit=%s" % rng.choice(sl.CRITS)]
         tol = rng.choice([1e-1, 1e-4, 1e-9])
         kw = {}
         x0 = rng.vec(prob.n, 2.0)
@@ -33,6 +37,7 @@ def gen_requests(ctx):
         elif scenario == "maxtime": kw["max_time_ns"] = 0
         elif scenario == "stop": kw["stop_at_eval"] = rng.randint(0, 45)
         elif scenario == "stopcb": kw["stop_at_cb"] = rng.randint(0, 6)
+        elif scenario == "stopdir": kw["stop_at_dircall"] = rng.randint(0, 5)
         elif scenario == "L0": params += ["solver.Lipschitz.L_0=%s" % rng.choice(["1e-3", "1", "1e3"])]
         if solver == "pantr" and not prob.hess: params.append("dir.finite_diff=true")
         if solver == "panoc" and rng.random() < 0.15: params.append("solver.eager_gradient_eval=true")
